@@ -4,6 +4,7 @@ from .. import soups, px, contexts, monitor, docgrammar
 from ..alphabets import SIG, SIG_SMALL, EVERYTYPE_TOKENS, STRUCTURAL
 from ..engine import exc_key, exc_detail, ddmin, hyp_run, Result
 from ..models import minitok
+from ..treedump import walk, kind
 from ..contexts import EXTRA_TOKENS, OPTIONS_TOKENS
 from ..alphabets import LEGACY
 from .c20 import model as linecol_model
@@ -105,6 +106,49 @@ def strict_outcome(s, ctxname, off=None):
         return 'foreign', e
 
 
+VERBATIM_ENVIRONMENTS = ('verbatim', 'verbatim*', 'lstlisting', 'vcode')
+
+
+def unaccounted_braces(s, nl):
+    """positions of active structure characters of an *accepted* input -- braces, dollar signs,
+    \\begin{..} / \\end{..} tokens, found by the independent lexer (not escaped, not in a comment)
+    -- that are neither the delimiter of a group / math / environment node of the result nor inside
+    a verbatim argument or verbatim environment: such a token was swallowed"""
+    from ..treedump import argspec_str
+    toks = minitok.tokens(s)
+    active = [(a, b) for k, a, b in toks if (k == 'ch' and s[a] in '{}$') or k in ('begin', 'end')]
+    if not active:
+        return []
+    ok = set()
+    spans = []
+    for n in walk(nl):
+        k = kind(n)
+        if k in ('group', 'math'):
+            d = getattr(n, 'delimiters', None) or ('', '')
+            if d[0] and n.pos is not None:
+                ok.update(range(n.pos, n.pos + len(d[0])))
+            if d[1] and n.pos_end is not None:
+                ok.update(range(n.pos_end - len(d[1]), n.pos_end))
+        if k == 'environment':
+            if n.environmentname in VERBATIM_ENVIRONMENTS:
+                spans.append((n.pos, n.pos_end))
+            for kk, a, b in toks:
+                if (kk == 'begin' and a == n.pos) or (kk == 'end' and b == n.pos_end):
+                    ok.update(range(a, b))
+        argd = getattr(n, 'nodeargd', None)
+        if argd is not None:
+            if 'Verbatim' in type(argd).__name__:
+                spans.append((n.pos, n.pos_end))
+            specs = getattr(argd, 'arguments_spec_list', None) or []
+            for a, sp in zip(getattr(argd, 'argnlist', None) or [], specs):
+                t = argspec_str(sp)
+                if a is not None and (t.startswith('v') or 'Verbatim' in t) and \
+                        getattr(a, 'pos', None) is not None:
+                    spans.append((a.pos, a.pos_end))
+    return [a for a, b in active if not all(p in ok for p in range(a, b))
+            and not any(x <= a < y for x, y in spans)]
+
+
 def check_soup(s, ctxname, res, case):
     res.case()
     off = tuple(case['off']) if case.get('off') else offsets_for(s)
@@ -114,6 +158,17 @@ def check_soup(s, ctxname, res, case):
         res.label('soup:tree')
         if val is None:
             res.fail('c05:none-result', 'strict parse returned None', case)
+            return
+        if any(c in s for c in '{}$') or '\\begin' in s or '\\end' in s:
+            bad = unaccounted_braces(s, val)
+            res.label('soup:accepted-with-structure')
+            if bad:
+                what = {'{': 'opening-brace', '}': 'closing-brace', '$': 'dollar'}.get(
+                    s[bad[0]], 'begin-or-end')
+                res.fail('c05:accepted:token-outside-any-construct:%s' % what,
+                         'strict mode accepted %r although the %s at offset %d is not the '
+                         'delimiter of any group / formula / environment of the result'
+                         % (s, what, bad[0]), case)
         return
     if kind == 'foreign':
         res.fail(exc_key(val), exc_detail(val), case)
